@@ -138,6 +138,12 @@ func genCase(t *rapid.T) Case {
 			break
 		}
 	}
+	// blank patterns are ignored by the library wherever they stand in the set: the patterns around them still count
+	if rapid.IntRange(0, 3).Draw(t, "blank") == 0 {
+		at := rapid.IntRange(0, len(c.Patterns)).Draw(t, "blank-at")
+		blank := rapid.SampledFrom([]string{"", " ", "  "}).Draw(t, "blank-pattern")
+		c.Patterns = append(c.Patterns[:at], append([]string{blank}, c.Patterns[at:]...)...)
+	}
 	if rapid.IntRange(0, 14).Draw(t, "invalid") == 0 {
 		c.Invalid = true
 		c.Patterns = append(c.Patterns, rapid.SampledFrom(invalidPatterns).Draw(t, "invalid-pattern"))
@@ -163,6 +169,9 @@ type classifier struct {
 func newClassifier(patterns []string) *classifier {
 	c := &classifier{}
 	for _, p := range patterns {
+		if strings.TrimSpace(p) == "" {
+			continue // blank: ignored by the library
+		}
 		c.full = append(c.full, regexp.MustCompile("^(?:"+p+")$"))
 		c.any = append(c.any, regexp.MustCompile(p))
 	}
